@@ -273,6 +273,16 @@ func (g *generator) convertTo(ctx *builder.MethodContext, assignTo *builder.Assi
 		}
 	}
 
+	if sourcePointer {
+		// fields are selected through the pointer, the value as a whole (goverter:map .) needs a dereference
+		sourceID = &xtype.JenID{
+			Code:          sourceID.Code,
+			Variable:      sourceID.Variable,
+			ParentPointer: sourceID,
+			Whole:         jen.Parens(jen.Op("*").Add(sourceID.Code.Clone())),
+		}
+	}
+
 	var s builder.Struct
 	stmt, err := s.Assign(g, ctx, assignTo, sourceID, source, target.PointerInner, errPath)
 	if sourcePointer {
